@@ -877,10 +877,12 @@ func (s *State) extendFunctionEnv(
 		// (a constant name goes through CreateOrSet below so that an already bound constant can't be shadowed)
 		if !s.NoReg && pval.Type() == object.INTEGER && env.HasRegisters() && !object.Constant(param.Value().Literal()) {
 			// We will release all these registers just by returning/dropping the env.
-			_, nbody, ok := setupRegister(env, param.Value().Literal(), pval.(object.Integer).Value, newBody)
+			reg, nbody, ok := setupRegister(env, param.Value().Literal(), pval.(object.Integer).Value, newBody)
 			if ok {
 				newBody = nbody
 				needVariable = false
+			} else {
+				env.ReleaseRegister(reg) // a plain variable: the name must not stay attached to a register.
 			}
 		}
 		if needVariable {
@@ -978,6 +980,11 @@ func ModifyRegister(register *object.Register, in ast.Node) (ast.Node, bool) {
 	case *ast.FunctionLiteral:
 		// skip lambda/functions in functions.
 		return nil, false
+	case *ast.InfixExpression:
+		// A register only holds integers: name = <anything that may not be one> needs a plain variable.
+		if (in.Type() == token.ASSIGN || in.Type() == token.DEFINE) && in.Left == ast.Node(register) && !integerExpr(in.Right, register) {
+			return nil, false
+		}
 	case *ast.Builtin:
 		if in.Type() == token.QUOTE {
 			// the quoted tree would keep the register node itself (and print as R[n,name]).
@@ -1006,6 +1013,25 @@ func usesRegister(n ast.Node, register *object.Register) bool {
 		return in
 	})
 	return found
+}
+
+// integerExpr tells if the (already rewritten) expression is an integer whatever the values: integer literals and
+// the register itself combined by integer arithmetic.
+func integerExpr(n ast.Node, register *object.Register) bool {
+	switch v := n.(type) {
+	case *ast.IntegerLiteral:
+		return true
+	case *object.Register:
+		return v == register
+	case *ast.PrefixExpression:
+		return v.Type() == token.MINUS && integerExpr(v.Right, register)
+	case *ast.InfixExpression:
+		switch v.Type() { //nolint:exhaustive // only these.
+		case token.PLUS, token.MINUS, token.ASTERISK, token.SLASH, token.PERCENT:
+			return integerExpr(v.Left, register) && integerExpr(v.Right, register)
+		}
+	}
+	return false
 }
 
 // integerBounds tells if the right hand side of a for x = ... is an integer literal or a range of 2 of them.
@@ -1055,7 +1081,8 @@ func (s *State) evalForInteger(fe *ast.ForExpression, start *int64, end int64, n
 	ownReg := false
 	if loopReg != nil {
 		ptr = loopReg.Ptr() // the body already refers to that register.
-	} else if name != "" && !s.NoReg && s.env.HasRegisters() {
+	} else if name != "" && !s.NoReg && s.env.HasRegisters() && !s.env.IsOuter(name) {
+		// (a loop variable that is a variable of an enclosing environment is updated there at each iteration)
 		ownReg = true
 		var ok bool
 		register, newBody, ok = setupRegister(s.env, name, int64(startValue), fe.Body)
